@@ -272,7 +272,25 @@ def extra_fuzz(nq, nt):
         for out, p in procs:
             p.wait()
             if p.returncode != 0:
-                violation('fuzz-crash', dict(what='the fuzzer process died (abort inside the expander?)', rc=p.returncode), no_input=True)
+                # the run is deterministic: repeat it leaving every input on disk before it is expanded; what is there
+                # when the process dies again is the input that kills the expander
+                i = int(out.rsplit('.', 2)[1])
+                tr = out + '.trace'
+                if os.path.exists(tr):
+                    os.remove(tr)
+                p2 = subprocess.run([vlib.XCHECK, 'fuzz', corpus, str(seed * 1000 + i), str(per), out],
+                                    env=dict(os.environ, XCHECK_FUZZ_TRACE=tr), capture_output=True, text=True)
+                killer = None
+                if p2.returncode != 0 and os.path.exists(tr):
+                    try:
+                        killer = json.loads(open(tr).read())
+                    except Exception:
+                        killer = None
+                if killer:
+                    violation(f'fuzz-crash-{i}', dict(what='the expander kills its process on this input (stack overflow or abort)',
+                                                      rc=p.returncode, stderr=p2.stderr[-400:], **killer))
+                else:
+                    violation('fuzz-crash', dict(what='the fuzzer process died (abort inside the expander?)', rc=p.returncode), no_input=True)
                 continue
             for line in open(out):
                 d = json.loads(line)
@@ -743,6 +761,32 @@ def replay(prop, path):
         print('replay: the program no longer shows the failure')
         return 0
     cid = d.get('case')
+    if not cid and d.get('item') and d.get('entry'):
+        # an input found by the mutation fuzzer (or one that kills the process): through the real entry point again
+        vlib.Build().harness()
+        base = f'{vlib.WORK}/replays/replay-{prop}-input'
+        item = d['item']
+        if d['entry'] == 'derive':
+            text = f"CASE replay/0/0\nENTRY derive\nITEM {item}\nEND\n"
+        else:
+            text = f"CASE replay/0/0\nENTRY attr\nARGS {d.get('args', '')}\nITEM {item}\nEND\n"
+        open(base + '.txt', 'w').write(text)
+        r = subprocess.run([vlib.XCHECK, 'l1', base + '.txt', base + '.jsonl'], capture_output=True, text=True, env=vlib.ENV)
+        bad = []
+        if r.returncode != 0:
+            bad = [dict(kind='panic', real=f'the process died (status {r.returncode}) {r.stderr[-300:]}')]
+        else:
+            for line in open(base + '.jsonl'):
+                if line.strip():
+                    m = json.loads(line)
+                    if not m.get('summary'):
+                        bad += [x for x in m['mismatches'] if x['kind'] in ('panic', 'nondet', 'parse', 'parse-syn')]
+        if bad:
+            print(json.dumps(bad, indent=1)[:3000])
+            print(f'VIOLATION property={prop} replay={path}')
+            return 1
+        print('replay: the expander answers this input with well-formed items or an error of its own')
+        return 0
     if not cid or cid.split('/')[0] in ('c13', 'c20', 'c17', 'c14e', 'c11r', 'c18r'):
         print(json.dumps(d, indent=1)[:4000])
         print('replay: this record carries no executable input; re-run the check itself')
